@@ -35,9 +35,10 @@ def draw_timings(r):
 
 def find_spec(r, ins):
     svc = ins["svc"] if r.random() < 0.9 else 0x7777
-    inst = r.choice([ins["inst"], 0xFFFF, ins["inst"], ins["inst"] + 1])
-    major = r.choice([ins["major"], 0xFF, ins["major"], ins["major"] + 1])
-    minor = r.choice([ins["minor"], 0xFFFFFFFF, ins["minor"], ins["minor"] + 1])
+    # exact, wildcard, near miss, and the other fields' wildcard values (legal, concrete ids here)
+    inst = r.choice([ins["inst"], 0xFFFF, ins["inst"], ins["inst"] + 1, 0x00FF, 0xFFFE])
+    major = r.choice([ins["major"], 0xFF, ins["major"], ins["major"] + 1, 0xFE])
+    minor = r.choice([ins["minor"], 0xFFFFFFFF, ins["minor"], ins["minor"] + 1, 0xFF, 0xFFFF, 0xFFFFFFFE])
     return ["find", svc, inst, major, minor, 3]
 
 
@@ -113,6 +114,19 @@ def gen_plan(pid, seed, idx, profile):
             if ph != "io":
                 op["ph"] = ph
             ops.append(op)
+            disturbed = True
+        elif kind == "find" and r.random() < 0.25:
+            # several requesters ask within one collection window, then the instance is stopped:
+            # every pending answer must still leave before the StopOffer
+            ins = r.choice(insts)
+            tt = t
+            for p in r.sample(range(3), r.randint(2, 3)):
+                ops.append({"k": "sd", "t": round(tt, 9), "p": p, "ch": r.choice("uuum"), "e": [["find", ins["svc"], r.choice([ins["inst"], 0xFFFF]), 0xFF, 0xFFFFFFFF, 3]]})
+                tt += r.choice([0.0, 0.0005, 0.002])
+            ops.append({"k": "call", "t": round(tt + r.choice([0.0, 0.001, 0.004, 0.03]), 9), "f": r.choice(["ann_stop", "stop_announce", "stop"]), "a": [insts.index(ins)] if False else []})
+            if ops[-1]["f"] == "stop_announce":
+                ops[-1]["a"] = [insts.index(ins)]
+            t = ops[-1]["t"]
             disturbed = True
         elif kind == "find":
             ins = r.choice(insts + ([HELPER] if use_helper else []))
